@@ -369,3 +369,22 @@ def v_r8_token_tables(p: Project, rep: Report, modules_prefix=("ofxtools.models"
     if not any(o.rule == "V-R8" and not o.ok for o in rep.obligations):
         rep.check("V-R8", "token-tables:no-implicit-concatenation", True, f"{ntables} tables", "")
     rep.floor("V-R8", ntables, 40 if len(modules_prefix) > 1 else 4, "token tables")
+
+
+
+def v_r15_no_html5_entity_decoder(p: Project, rep: Report, modules=("ofxtools.Types", "ofxtools.ofxhome", "ofxtools.utils", "ofxtools.Parser", "ofxtools.Client", "ofxtools.models.base", "ofxtools.scripts.ofxget")):
+    """html.unescape is not an XML / SGML entity decoder"""
+    rep.rule("V-R15", "no reader or writer of the library decodes text with html.unescape / HTMLParser.unescape: HTML5 rules also expand the LEGACY entity names without a semicolon, even as a prefix of a longer word (`&not`, `&reg`, `&copy`, `&sect`, `&para`, `&lt` ...) and numeric references - `Bills&notes` is read as `Bills¬es`, a password `jim&regina` goes out as `jim®ina`, an OFX Home URL `?a=1&region=us` becomes `?a=1®ion=us` - where the XML / OFX decoders (saxutils.unescape with the five entities) leave such text alone")
+    n = 0
+    for modname in modules:
+        try:
+            m = p.module(modname)
+        except Exception:
+            continue
+        for x in ast.walk(m.tree):
+            if isinstance(x, ast.Call):
+                n += 1
+                d = dotted(x.func) or ""
+                if d in ("html.unescape", "unescape") and (d == "html.unescape" or str(p.resolve(modname, "unescape")).find("html") >= 0) or d.endswith("HTMLParser.unescape") or d.endswith("HTMLParser().unescape"):
+                    rep.check("V-R15", f"{modname}:html.unescape", False, f"{m.relpath}:{x.lineno} decodes with {d}(): legacy HTML entity names without a semicolon (&not, &reg, &copy, &sect ...) and numeric references inside ordinary text are expanded - values containing `&` followed by such a name are silently changed", f"{m.relpath}:{x.lineno}")
+    rep.check("V-R15", "library:no-html5-entity-decoder", True, "", f"{n} calls in {len(modules)} modules")
